@@ -170,33 +170,33 @@ func checkText(form string, p []string) (sig, msg string) {
 	case "identity":
 		x := lime.Identity{Name: p[0], Domain: p[1]}
 		if y := lime.ParseIdentity(x.String()); y != x {
-			return "text:identity", fmt.Sprintf("ParseIdentity(%q) = %+v, want %+v", x.String(), y, x)
+			return "text:identity", fmt.Sprintf("ParseIdentity(%q) = %#v, want %#v", x.String(), y, x)
 		}
 		var z lime.Identity
 		b, _ := x.MarshalText()
 		if err := z.UnmarshalText(b); err != nil || z != x {
-			return "text:identity-marshaltext", fmt.Sprintf("UnmarshalText(MarshalText(%+v)) = %+v, %v", x, z, err)
+			return "text:identity-marshaltext", fmt.Sprintf("UnmarshalText(MarshalText(%#v)) = %#v, %v", x, z, err)
 		}
 	case "node":
 		x := lime.Node{Identity: lime.Identity{Name: p[0], Domain: p[1]}, Instance: p[2]}
 		if y := lime.ParseNode(x.String()); y != x {
-			return "text:node", fmt.Sprintf("ParseNode(%q) = %+v, want %+v", x.String(), y, x)
+			return "text:node", fmt.Sprintf("ParseNode(%q) = %#v, want %#v", x.String(), y, x)
 		}
 		var z lime.Node
 		b, _ := x.MarshalText()
 		if err := z.UnmarshalText(b); err != nil || z != x {
-			return "text:node-marshaltext", fmt.Sprintf("UnmarshalText(MarshalText(%+v)) = %+v, %v", x, z, err)
+			return "text:node-marshaltext", fmt.Sprintf("UnmarshalText(MarshalText(%#v)) = %#v, %v", x, z, err)
 		}
 	case "mediatype":
 		x := lime.MediaType{Type: p[0], Subtype: p[1], Suffix: p[2]}
 		y, err := lime.ParseMediaType(x.String())
 		if err != nil || y != x {
-			return "text:mediatype", fmt.Sprintf("ParseMediaType(%q) = %+v, %v; want %+v", x.String(), y, err, x)
+			return "text:mediatype", fmt.Sprintf("ParseMediaType(%q) = %#v, %v; want %#v", x.String(), y, err, x)
 		}
 		var z lime.MediaType
 		b, _ := x.MarshalText()
 		if err := z.UnmarshalText(b); err != nil || z != x {
-			return "text:mediatype-marshaltext", fmt.Sprintf("UnmarshalText(MarshalText(%+v)) = %+v, %v", x, z, err)
+			return "text:mediatype-marshaltext", fmt.Sprintf("UnmarshalText(MarshalText(%#v)) = %#v, %v", x, z, err)
 		}
 	case "uri":
 		u, err := lime.ParseLimeURI(p[0])
